@@ -776,6 +776,12 @@ class Engine:
 
         if process_updates:
             for path, process in process_updates:
+                if self.process_paths.get(path) not in (None, process):
+                    # another process takes the place of the one that
+                    # was running here (a _generate onto its key): the
+                    # new one starts afresh, and what the old one had
+                    # under way is dropped with it
+                    self.front.pop(path, None)
                 assoc_path(self.processes, path, process)
                 self._add_process_path(process, path, {})
 
